@@ -116,4 +116,5 @@ def is_valid(number):
 
 def format(number):
     """Reformat the number to the standard presentation format."""
+    number = compact(number)
     return '.'.join((number[:2], number[2:])).strip('.')
